@@ -41,8 +41,78 @@ def report_sampler_results(ctx, results, prop):
                      {"sampler_job_args": r["args"], "how": "pv.edits.sampler_job(args)", "call": name, "nth": nth})
 
 
+def _conserve_job(args):
+    """every sampler move applied (a few seeded times) to one start tree: the returned tree must be well formed and hold
+    exactly the start tree's data points"""
+    spec, values, reps, seed = args
+    import numpy as np
+
+    from phyclone.mcmc.gibbs_mh import DataPointSampler, PruneRegraphSampler
+    from phyclone.mcmc.particle_gibbs import ParticleGibbsSubtreeSampler, ParticleGibbsTreeSampler
+    from phyclone.smc.samplers import UnconditionalSMCSampler
+    from phyclone.utils.dev import clear_proposal_dist_caches
+
+    from ..kernels import KINDS, make_kernel, make_tree_dist
+    from ..trees import AbsError, abs_spec, build_tree, make_data, spec_points
+
+    has_out = len(spec[1]) > 0
+    data = make_data(values, outlier_prob=0.2)
+    pts = tuple(spec_points(spec))
+    bad = []
+    n = 0
+    for kind in KINDS:
+        for rep in range(reps):
+            rng = np.random.default_rng(seed + 1000 * rep)
+            td = make_tree_dist(1.0)
+            k = make_kernel(kind, td, rng, 0.1, True)
+            movers = [("ParticleGibbsSubtreeSampler", ParticleGibbsSubtreeSampler(k, rng, num_particles=3, resample_threshold=0.5)),
+                      ("ParticleGibbsTreeSampler", ParticleGibbsTreeSampler(k, rng, num_particles=3, resample_threshold=0.5)),
+                      ("UnconditionalSMCSampler", UnconditionalSMCSampler(k, num_particles=3, resample_threshold=0.5)),
+                      ("DataPointSampler", DataPointSampler(td, rng, outliers=True)),
+                      ("PruneRegraphSampler", PruneRegraphSampler(td, rng))]
+            for name, mv in movers:
+                clear_proposal_dist_caches()
+                tree = build_tree(spec, data)
+                n += 1
+                try:
+                    out = mv.sample_tree(tree)
+                    sp = abs_spec(out)
+                    got = tuple(spec_points(sp))
+                    if got != pts:
+                        bad.append((name, kind, "returned tree holds data points %r, the input held %r" % (got, pts)))
+                except AbsError as e:
+                    bad.append((name, kind, "returned tree is not well formed: %s" % e))
+                except Exception as e:  # crashes are C19's subject; recorded, not judged here
+                    pass
+    return spec, n, bad
+
+
+def move_conservation(ctx):
+    """Every real move from EVERY start tree over 3 data points with every outlier subset (and a sample of 4-point
+    trees): well-formedness and exact data conservation of the returned tree."""
+    from ..trees import all_specs, rational_values
+
+    specs = all_specs(range(3), outliers=True)
+    more = all_specs(range(4), outliers=True)
+    ctx.rng.shuffle(more)
+    specs = specs + more[: (40 if ctx.quick else 400)]
+    vals = rational_values(ctx.rng, 4, 1, 3)
+    jobs = [(sp, vals, 2 if ctx.quick else 5, ctx.rng.randrange(10**6)) for sp in specs]
+    with ProcessPoolExecutor(max_workers=h.WORKERS) as ex:
+        res = list(ex.map(_conserve_job, jobs, chunksize=4))
+    tot = 0
+    for spec, n, bad in res:
+        tot += n
+        shape = "outliers=%d,roots=%d" % (len(spec[1]), len(spec[0]))
+        ctx.case(key=("conserve", spec), nontrivial=True, n=n)
+        for name, kind, what in bad[:1]:
+            ctx.fail("C07:%s:conservation:%s" % (name, "with-outliers" if spec[1] else "no-outliers"), what, {"start_tree": spec, "kernel": kind, "shape": shape})
+    ctx.count("move_conservation_calls", tot)
+
+
 def run(ctx):
     coq.check_property_file(ctx)
+    move_conservation(ctx)
     ctx.rule = (
         "(a) the seeded random edit histories of C06 (same grammar, own seeds): after EVERY edit the four redundant views of the real Tree agree "
         "(pv.trees.abs_impl: name<->index maps inverse, payload names/data = _data, one parent each, all reachable, edge count) and the data-index multiset "
